@@ -45,6 +45,33 @@ impl<'a> Ctx<'a> {
     fn kind_of<'b>(&self, bind: &'b str) -> &'b str {
         bind.split(':').next().unwrap_or("")
     }
+    /// Situations in which the pinned server is known to answer wrongly (known findings); the suffix makes the
+    /// failure site specific, so that nothing else is covered by those entries:
+    /// * an identifier in a type position of a procedure (parameter or variable type) that names a declared type
+    ///   while a parameter / local variable of that procedure carries the same name (the features resolve every
+    ///   identifier inside a procedure through the local table first, whatever its syntactic position);
+    /// * a variable of an anonymous array type that carries the name of a declared type (the creator of an
+    ///   array type is recorded by NAME, so the variable's own type is mistaken for the declared one).
+    fn quirk(&self, i: usize) -> &'static str {
+        let b = &self.bind[i];
+        let name = &self.p.toks[i].spell;
+        if b.starts_with("type:") && self.role[i] == "use" {
+            if let Some(pd) = self.p.nodes.iter().find(|n| n.kind == "ProcDec" && n.first <= i && i <= n.last && n.last != usize::MAX) {
+                let hidden = self.decls.values().any(|d| (d["kind"] == "param" || d["kind"] == "local") && d["owner"] == pd.attr.as_str() && d["name"] == name.as_str());
+                if hidden {
+                    return ":type-name-hidden-by-local";
+                }
+            }
+        }
+        if b.starts_with("local:") || b.starts_with("param:") {
+            let anon = self.decls.get(b).map(|d| d["creator"] == b.as_str()).unwrap_or(false);
+            let like_type = self.decls.values().any(|d| d["kind"] == "type" && d["name"] == name.as_str());
+            if anon && like_type {
+                return ":anonymous-array-named-like-type";
+            }
+        }
+        ""
+    }
     fn tdp(&self, off: usize) -> Value {
         json!({"textDocument": {"uri": self.uri}, "position": pos_json(lspmodel::pos_of(&self.r.text, off))})
     }
@@ -153,7 +180,7 @@ pub fn run(cases: Vec<(String, Value)>, max_fail: usize, opts: &HashMap<String, 
                             let got = ask!(method, cx.tdp(o), "C12");
                             let got_range = loc_range(&got);
                             if got_range != *want {
-                                let site = format!("{}:{}:{}", method.rsplit('/').next().unwrap_or(""), k, cx.role[i]);
+                                let site = format!("{}:{}:{}{}", method.rsplit('/').next().unwrap_or(""), k, cx.role[i], cx.quirk(i));
                                 out.failures.push(fail("C12", "wrong-location", &site,
                                     json!({"layout": lname, "text": r.text, "identifier": p.toks[i].spell, "binding": bnd, "at_byte": o, "method": method,
                                            "expected_range": want, "got": got})));
@@ -180,7 +207,7 @@ pub fn run(cases: Vec<(String, Value)>, max_fail: usize, opts: &HashMap<String, 
                     let bnd = cx.bind[i].clone();
                     let k = cx.kind_of(&bnd).to_string();
                     let occ: Vec<usize> = idents.iter().cloned().filter(|&j| cx.bind[j] == bnd).collect();
-                    let site = format!("{}:{}", k, cx.role[i]);
+                    let site = format!("{}:{}{}", k, cx.role[i], cx.quirk(i));
                     // references
                     let mut params = cx.tdp(a + (b - a) / 2);
                     params["context"] = json!({"includeDeclaration": true});
@@ -276,7 +303,7 @@ pub fn run(cases: Vec<(String, Value)>, max_fail: usize, opts: &HashMap<String, 
                     let k = cx.kind_of(&bnd).to_string();
                     let got = ask!("textDocument/hover", cx.tdp(a + (b - a) / 2), "C14");
                     let Some(d) = cx.decls.get(&bnd) else { continue };
-                    let site = format!("hover:{}", k);
+                    let site = format!("hover:{}{}", k, cx.quirk(i));
                     if got.is_null() {
                         out.failures.push(fail("C14", "no-hover", &site, json!({"layout": lname, "text": r.text, "identifier": p.toks[i].spell, "binding": bnd})));
                         continue;
@@ -436,8 +463,9 @@ pub fn run(cases: Vec<(String, Value)>, max_fail: usize, opts: &HashMap<String, 
                             let g = seen.get(&li2);
                             if g.map(|x| (&x.0, x.1)) != Some((&wty, wdecl)) {
                                 let trailing = lx.comment.is_some() && r.lex[li2..].iter().all(|x| x.comment.is_some());
-                                let site = if trailing { "comment:after-last-declaration".to_string() } else { format!("{}:{}", wty, if wdecl { "decl" } else { "use" }) };
-                                if trailing {
+                                let quirk = lx.tok.map(|t| cx.quirk(t)).unwrap_or("");
+                                let site = if trailing { "comment:after-last-declaration".to_string() } else { format!("{}:{}{}", wty, if wdecl { "decl" } else { "use" }, quirk) };
+                                if trailing || !quirk.is_empty() {
                                     out.failures.push(fail("C15", "classification", &site, json!({"layout": lname, "text": r.text, "token": &r.text[lx.start..lx.end], "at_byte": lx.start,
                                                             "expected": [wty, wdecl], "got": g.map(|x| json!([x.0, x.1]))})));
                                     continue;
